@@ -225,6 +225,57 @@ def run(ctx, fr, model_available=True):
     fr.distribution = {'cases': len(cases), 'subclass': sum(1 for c in cases if c['subclass'])}
 
 
+METHOD_SRC = r"""
+import deal
+__name__ = "c05_validator_calls_method_probe"
+def probe():
+    # an invariant whose validator calls a method of the instance it validates (C05-X2): construction, reads, method calls and
+    # assignments behave as with a validator that reads the attribute directly
+    from deal._state import state
+    def build(through_method):
+        inv = (lambda o: o.total() >= 0) if through_method else (lambda o: o.x >= 0)
+        @deal.inv(inv)
+        class A:
+            def __init__(self): self.x = 1
+            def total(self): return self.x
+            def dec(self, k): self.x -= k; return self.x
+        return A
+    def history(A):
+        out = []
+        def do(label, fn):
+            try: out.append([label, "ok", fn()])
+            except deal.InvContractError: out.append([label, "InvContractError"])
+            except BaseException as e: out.append([label, "exc", type(e).__name__])
+            out[-1].append(state.debug)
+        box = {}
+        do("new", lambda: box.__setitem__("a", A()))
+        if "a" not in box: return out
+        a = box["a"]
+        do("total", lambda: a.total())
+        do("dec 5", lambda: a.dec(5))
+        do("x after", lambda: a.x)
+        do("total on broken", lambda: a.total())
+        do("repair", lambda: setattr(a, "x", 3))
+        do("dec 1", lambda: a.dec(1))
+        do("assign -1", lambda: setattr(a, "x", -1))
+        deal.disable(); do("disabled dec", lambda: a.dec(100)); deal.enable()
+        return out
+    direct, through = history(build(False)), history(build(True))
+    return [] if direct == through else [[d, t] for d, t in zip(direct, through) if d != t] or [["length", len(direct), len(through)]]
+"""
+
+
+_run_histories = run
+def run(ctx, fr, model_available=True):
+    _run_histories(ctx, fr, model_available)
+    r = impl.run_impl('pyexec.py', {'src': METHOD_SRC, 'calls': [['probe', []]]})[0]
+    fr.evaluations += 9; fr.add_nontrivial({'validator_calls_method_probe': 1})
+    fr.samples.append({'family': 'invariant whose validator calls a method of the instance', 'deviations': r})
+    if r:
+        fr.violations.append({'scenario': {'family': 'validator-calls-method'}, 'impl': r if isinstance(r, dict) else r[:4], 'signature': None,
+                              'what': f'with an invariant whose validator calls a method of the instance the history differs from the one with a validator reading the attribute: [direct, through a method] = {r if isinstance(r, dict) else r[0]}'})
+
+
 def search(ctx, fr, model_available=True):
     class C2: tier = 'thorough'; seed = ctx.seed + 1
     fr2 = type(fr)(); run(C2, fr2, model_available=False)
